@@ -74,11 +74,14 @@ func (s *StructDataProvider) GetByField(field reflect.StructField, fallback stri
 }
 
 func (s *StructDataProvider) GetNestedProvider(key string) DataProvider {
-	field := s.value.FieldByName(key)
-	if !field.IsValid() {
+	field := fieldByName(s.value, key)
+	if !field.IsValid() || !field.CanInterface() {
 		return nil
 	}
-	dataProvider, _ := TryNewAnyDataProvider(field.Interface())
+	dataProvider, err := TryNewAnyDataProvider(field.Interface())
+	if err != nil {
+		return nil
+	}
 	return dataProvider
 }
 
@@ -107,7 +110,17 @@ func (m *MapDataProvider[T]) GetByField(field reflect.StructField, fallback stri
 }
 
 func (m *MapDataProvider[T]) GetNestedProvider(key string) DataProvider {
-	dataProvider, _ := TryNewAnyDataProvider(m.M[key])
+	dataProvider, err := TryNewAnyDataProvider(m.M[key])
+	if err != nil {
+		return nil
+	}
+	// nested records are keyed by the same source specific tag as their parent
+	switch dp := dataProvider.(type) {
+	case *MapDataProvider[any]:
+		dp.tag = m.tag
+	case *EmptyDataProvider:
+		dp.Tag = m.tag
+	}
 	return dataProvider
 }
 
@@ -148,7 +161,7 @@ func (e *EmptyDataProvider) GetByField(field reflect.StructField, fallback strin
 }
 
 func (e *EmptyDataProvider) GetNestedProvider(key string) DataProvider {
-	return nil
+	return e
 }
 
 func (e *EmptyDataProvider) GetUnderlying() any {
